@@ -200,6 +200,11 @@ package base
 
 //@ spec func viewOK(m) = m != nil && m.real != nil && arrayOK(m.real.data) && m.real.data.bucketLengthInMs > 0 && m.real.data.array.length <= 65536 && m.intervalInMs > 0
 
+// ghost record of the last getQPSWithTime call (lets wrappers state "the rate at time t" without re-deriving it)
+//@ ghost var gQpsNow Int
+//@ ghost var gQpsEvent Int
+//@ ghost var gQpsView Int
+//@ ghost var gQpsRes Real
 //@ func (m *SlidingWindowMetric) getQPSWithTime(now, event) r
 //@   props C08
 //@   requires viewOK(m) && now < 4611686018427387904 && validEvent(event) && bucketsOK(m.real.data, event)
@@ -207,14 +212,19 @@ package base
 //@   let pick = seqof(i, 0 <= i && i < la.array.length && now > 0 && live(la, now, la.array.data[i]) && inWindow(m, now, la.array.data[i].BucketStart))
 //@   let slotVals = seqof(i, bucketOf(la.array.data[i]).counter[event])
 //@   ensures[per-second] now > 0 ==> r == R(isum(pick, slotVals, la.array.length)) / (R(m.intervalInMs) / 1000.0)
-//@   modifies nothing
+//@   sets gQpsNow = now
+//@   sets gQpsEvent = event
+//@   sets gQpsView = ref(m)
+//@   sets gQpsRes = r
+//@   ensures[recorded] gQpsNow == now && gQpsEvent == event && gQpsView == ref(m) && gQpsRes == r
+//@   modifies gQpsNow, gQpsEvent, gQpsView, gQpsRes
 
 // the previous-window rate is the rate of the window ending one view bucket earlier
 //@ func (m *SlidingWindowMetric) GetPreviousQPS(event) r
 //@   props C08
 //@   requires viewOK(m) && validEvent(event) && bucketsOK(m.real.data, event) && clock_ms >= m.bucketLengthInMs
-//@   ensures[one-bucket-earlier] clock_ms - m.bucketLengthInMs > 0 ==> r == R(isum(seqof(i, 0 <= i && i < m.real.data.array.length && live(m.real.data, clock_ms - m.bucketLengthInMs, m.real.data.array.data[i]) && inWindow(m, clock_ms - m.bucketLengthInMs, m.real.data.array.data[i].BucketStart)), seqof(i, bucketOf(m.real.data.array.data[i]).counter[event]), m.real.data.array.length)) / (R(m.intervalInMs) / 1000.0)
-//@   modifies nothing
+//@   ensures[one-bucket-earlier] gQpsNow == clock_ms - m.bucketLengthInMs && gQpsEvent == event && gQpsView == ref(m) && r == gQpsRes
+//@   modifies gQpsNow, gQpsEvent, gQpsView, gQpsRes
 
 // maximum of one event over the buckets of the window (0 if none)
 //@ func (m *SlidingWindowMetric) GetMaxOfSingleBucket(event) r
